@@ -436,7 +436,13 @@ SCHEMA["TestNode"]["pydefaults"] = {
 
 def install(eng):
     """Install repository-wide call overrides (trusted summaries of dependencies)."""
-    pass
+    def dict_literal_hook(items):
+        # {"name": ..., "status": ...} literals are test result dictionaries
+        keys = set(items.keys())
+        if keys and all(isinstance(k, str) for k in keys) and keys <= set(RESULT_KEYS) and "status" in keys:
+            return "Result"
+        return None
+    eng.dict_literal_hook = dict_literal_hook
 
 
 def well_formed(eng, st):
@@ -460,3 +466,68 @@ def axioms(eng):
             ax.append(c(z3.EmptySet(sort)) == 0)
             ax.append(safe_forall([S], c(S) >= 0, patterns=[c(S)]))
     return ax
+
+
+# ---------------------------------------------------------------------------- runner side (job results, test ids)
+SCHEMA.update({
+    "TestID": {"fields": {"name": STR, "uid": STR}},
+    "JobResult": {"fields": {"tid": Ref("TestID"), "j_status": STR, "j_time": STR}, "methods": {}},
+    "JobResultSet": {"fields": {"tests": Seq(Ref("JobResult"))}},
+    "Job": {"fields": {"result": Ref("JobResultSet")}, "nonnull": ["result"]},
+    "TestRunner": {"fields": {"job": Ref("Job"), "previous_results": Seq(Ref("Result"))}, "nonnull": ["job"]},
+    "TestGraph": {"fields": {"runner": Ref("TestRunner")}, "nonnull": ["runner"]},
+})
+SCHEMA["JobResult"]["nonnull"] = ["tid"]
+
+
+def jobresult_getitem(eng, st, r, args, kw, node):
+    ok, k = concrete(args[0])
+    if k == "name":
+        yield st, eng.read_field(st, r, "JobResult", "tid", Ref("TestID"))
+    elif k == "status":
+        yield st, eng.read_field(st, r, "JobResult", "j_status", STR)
+    elif k == "time_elapsed":
+        yield st, eng.read_field(st, r, "JobResult", "j_time", STR)
+    else:
+        raise Untranslatable(f"job result key {args[0]!r}", node)
+
+
+def jobresult_setitem(eng, st, r, args, kw, node):
+    ok, k = concrete(args[0])
+    if k == "status":
+        eng.write_field(st, r, "JobResult", "j_status", STR, args[1])
+        yield st, NONE
+    else:
+        raise Untranslatable(f"job result key store {args[0]!r}", node)
+
+
+def jobresult_copy_to_result(eng, st, r):
+    """{key: value for key, value in test_result.items()} : a new plain dict with the same entries."""
+    new = eng.new_object(st, "Result", "jobcopy")
+    eng.write_field(st, new, "Result", "r_status", STR, eng.read_field(st, r, "JobResult", "j_status", STR))
+    eng.write_field(st, new, "Result", "r_time", STR, eng.read_field(st, r, "JobResult", "j_time", STR))
+    tid = eng.read_field(st, r, "JobResult", "tid", Ref("TestID"))
+    eng.write_field(st, new, "Result", "r_uid", STR, eng.read_field(st, tid, "TestID", "uid", STR))
+    return new
+
+
+SCHEMA["JobResult"]["methods"].update({"__getitem__": jobresult_getitem, "__setitem__": jobresult_setitem})
+SCHEMA["JobResult"]["dictcopy"] = jobresult_copy_to_result
+
+
+def node_id_test(eng, st, n, node):
+    """TestNode.id_test -> TestID(prefix, params['name']) ; uid is the prefix, name the test name (trusted avocado API)."""
+    p = eng.read_field(st, n, "TestNode", "_params_cache", Ref("Params"))
+    has = eng.read_field(st, p, "Params", "p_has", P_HAS).term
+    val = eng.read_field(st, p, "Params", "p_val", P_VAL).term
+    for st1, ok in eng.fork(st, z3.Select(has, z3.StringVal("name")), "id_test.name"):
+        if ok:
+            t = eng.new_object(st1, "TestID", "tid")
+            eng.write_field(st1, t, "TestID", "uid", STR, eng.read_field(st1, n, "TestNode", "prefix", STR))
+            eng.write_field(st1, t, "TestID", "name", STR, V(STR, z3.Select(val, z3.StringVal("name"))))
+            yield st1, t
+        else:
+            eng.raise_exc(st1, "ParamNotFound", node)
+
+
+SCHEMA["TestNode"]["props"]["id_test"] = node_id_test
